@@ -397,6 +397,9 @@ def rule_r4(chk, db, conf):
             hb = db.bodies.get(t["callee"].get("resolved") or "") or db.bodies.get(callee_def(t))
             if hb is not None and hb.crate == "s3s_fs" and hb.kind in ("Fn", "AssocFn") and len(seen) < 20:
                 work += db.nested(hb)
+            for a in t["args"]:         # a predicate handed over as a function item (`.is_some_and(is_tmp_file_name)`)
+                if isinstance(a, dict) and a.get("c") == "fn" and db.body(a.get("def", "")) is not None and db.body(a["def"]).crate == "s3s_fs" and len(seen) < 20:
+                    work += db.nested(db.body(a["def"]))
     chk.verdict(pre is not None and suf is not None and any(pre in l for l in fmt_lits) and any(suf in l for l in fmt_lits), "R4", "cleanup-matches-temp-names", cl.loc(),
                 "clean_old_tmp_files matches %r...%r but prepare_file_write formats names from %s" % (pre, suf, fmt_lits[:4]))
 
